@@ -318,13 +318,37 @@ func caseVec32(o *vlib.Oracle, c *rec, cs Case) {
 func caseDnPriv(o *vlib.Oracle, c *rec, cs Case) {
 	p, s := unhx(cs.A[0]), unhx(cs.A[1])
 	c.Eval("derive-next-private", cs.A[0]+cs.A[1])
-	real := btc.DeriveNextPrivate(append([]byte{}, p...), append([]byte{}, s...))
-	sum := new(big.Int).Add(new(big.Int).SetBytes(p), new(big.Int).SetBytes(s))
+	var real []byte
+	pan := ""
+	func() {
+		defer func() {
+			if x := recover(); x != nil {
+				pan = fmt.Sprint(x)
+			}
+		}()
+		real = btc.DeriveNextPrivate(append([]byte{}, p...), append([]byte{}, s...))
+	}()
+	pv, sv := new(big.Int).SetBytes(p), new(big.Int).SetBytes(s)
+	sum := new(big.Int).Add(pv, sv)
+	// which region of the quantifier ("IL >= n", parent key >= n, sum >= 2n) this pair lies in
+	if pv.Cmp(refN) >= 0 || sv.Cmp(refN) >= 0 {
+		c.Hit("dnpriv-operand-ge-n")
+	}
+	if sum.Cmp(new(big.Int).Lsh(refN, 1)) >= 0 {
+		c.Hit("dnpriv-sum-ge-2n")
+	} else if sum.Cmp(refN) >= 0 {
+		c.Hit("dnpriv-sum-ge-n")
+	}
 	sum.Mod(sum, refN)
 	want := make([]byte, 32)
 	sum.FillBytes(want)
+	if pan != "" {
+		c.PropFail("derive-next-private", "DeriveNextPrivate panics ("+pan+"); (p+s) mod n = "+hx(want), cs)
+		return
+	}
 	if !bytes.Equal(real, want) {
-		c.PropFail("derive-next-private", "DeriveNextPrivate != (p+s) mod n as 32 bytes", cs)
+		c.PropFail("derive-next-private", "DeriveNextPrivate = "+hx(real)+" != (p+s) mod n as 32 bytes = "+hx(want), cs)
+		return
 	}
 	if real[0] == 0 {
 		c.Hit("dnpriv-leading-zero")
@@ -477,8 +501,17 @@ func caseWifDec(o *vlib.Oracle, c *rec, cs Case) {
 			cls = "long"
 		case strings.Contains(err.Error(), "checksum"):
 			cls = "checksum"
+		case strings.Contains(err.Error(), "flag"):
+			cls = "flag"
 		}
 		c.Hit("wifdec-err-" + cls)
+		// a payload with a wrong checksum AND a wrong flag byte fails both tests: which one is reported is an
+		// ordering detail of two independent refusals, not behaviour
+		if (cls == "flag" && got == "err checksum") || (cls == "checksum" && got == "err flag") {
+			if pl := refB58Decode(s); len(pl) == 38 && pl[33] != 1 && !bytes.Equal(refDsha(pl[:34])[:4], pl[34:]) {
+				got = "err " + cls
+			}
+		}
 		if got != "err "+cls {
 			c.TieFail("wifdec", "DecodePrivateAddr error "+cls+", model: "+got, cs)
 		} else {
@@ -486,6 +519,12 @@ func caseWifDec(o *vlib.Oracle, c *rec, cs Case) {
 		}
 	default:
 		c.Hit("wifdec-ok")
+		// re-import clause, import direction (Props.C14.wif_import_is_export): an accepted string is the export of
+		// the record it imports to - two strings never denote one key record (finding wif-flag-byte-unchecked, fixed)
+		if back := pa.String(); back != s {
+			c.PropFail("wif-import-not-export", fmt.Sprintf("DecodePrivateAddr(%q) is accepted but String() of the result is %q: two strings import to one key", s, back), cs)
+			return
+		}
 		want := fmt.Sprintf("ok %s %d %s %s %d", hx(pa.Key), pa.Version, hx(pa.Pubkey), hx(pa.Hash160[:]), pa.BtcAddr.Version)
 		if got != want {
 			c.TieFail("wifdec", "model decodePrivateAddr differs: "+got+" vs "+want, cs)
